@@ -206,6 +206,9 @@ func genQuery(rt *rapid.T) querySpec {
 		return querySpec{Kind: "logql", Log: genLogQL(rt)}
 	case k < 88:
 		q := c11.GenScript(rt)
+		if chance(rt, 25, "durAgg") {
+			addDurationAgg(rt, &q)
+		}
 		return querySpec{Kind: "traceql", Trace: &q}
 	default:
 		return querySpec{Kind: "prof", Prof: genProf(rt)}
@@ -239,7 +242,40 @@ func genParams(rt *rapid.T, q querySpec) execParams {
 	case "prof":
 		p.Limit = int64(pick(rt, []int{0, 10}, "limit"))
 	}
+	genConfig(rt, &p)
 	return p
+}
+
+var (
+	clusterNames = []string{"c1", "c2"}
+	dbNames      = []string{"logs_eu", "logs_us"} // two databases of one cluster
+)
+
+// genConfig: single node (60 %) or a cluster with one of two database names.
+func genConfig(rt *rapid.T, p *execParams) {
+	p.Cluster, p.DB = "", ""
+	if chance(rt, 40, "cluster") {
+		p.Cluster = pick(rt, clusterNames, "clusterName")
+		p.DB = pick(rt, dbNames, "dbName")
+	}
+}
+
+// traceAggUnits: every unit the TraceQL lexer accepts after an aggregate's number; the
+// planner converts with time.ParseDuration, which rejects `d` — identically on every
+// execution of the unchanged tree.
+var traceAggUnits = []string{"ns", "us", "ms", "s", "m", "h", "d"}
+
+func addDurationAgg(rt *rapid.T, q *refeval.TQScript) {
+	if len(q.Sels) == 0 || q.Sels[0].Expr == nil {
+		return
+	}
+	q.Sels[0].Agg = &refeval.TQAgg{
+		Fn:   pick(rt, []string{"avg", "min", "max", "sum"}, "durAggFn"),
+		Attr: "duration",
+		Cmp:  pick(rt, []string{">", ">=", "<", "<=", "=", "!="}, "durAggCmp"),
+		Num:  pick(rt, []string{"1", "2", "1.5", "0.5"}, "durAggNum"),
+		Unit: pick(rt, traceAggUnits, "durAggUnit"),
+	}
 }
 
 // advance draws the parameters of the next execution of the same plan: the window moves
